@@ -254,6 +254,10 @@ pub fn compare(src: &str, emitted: &str) -> Result<Option<String>, String> {
         let rest = sig.strip_prefix("pubfnparse<")?;
         let close = rest.find('>')?;
         let p = &rest[..close];
+        // the type parameter must not shadow a declared type: `parse<S>(src: S) -> Result<S, ..>` would not return the start type
+        if want.iter().any(|d| d.1.name() == p) {
+            return None;
+        }
         let rest = rest[close + 1..].strip_prefix("(src:")?;
         let rest = rest.strip_prefix(p)?;
         let rest = rest.strip_prefix(")->")?;
@@ -267,7 +271,7 @@ pub fn compare(src: &str, emitted: &str) -> Result<Option<String>, String> {
         }
     })();
     if ok.is_none() {
-        return Ok(Some(format!("parse signature is `{sig}`, expected `pub fn parse<P>(src: P) -> Result<{start}, Option<{tok}>> where P: IntoIterator<Item = {tok}>`")));
+        return Ok(Some(format!("parse signature is `{sig}`, expected `pub fn parse<P>(src: P) -> Result<{start}, Option<{tok}>> where P: IntoIterator<Item = {tok}>` with a type parameter P that is none of the declared types")));
     }
     Ok(None)
 }
